@@ -103,6 +103,19 @@ CHECKS = {
         "Trusted: nothing but the renderer's notion of a table position; differential, so defects common to both sides are C01/C02's business.",
         "DESIGN.md section 5 C14",
     ),
+    "C13": (
+        "vmc/c13.py (E1 + E6 generator x knowledge-assignment product; refsem.columns with knowledge map)",
+        "exploration",
+        "deviation-bounded enumeration of statements x exhaustive product of per-table knowledge assignments x provider kind; reference semantics with knowledge map + differential oracles",
+        "Every C02-generator statement within 2 (quick) / 3 (thorough) deviations, over schema-qualified tables, is combined with every well-formed "
+        "assignment table -> {unknown, known exactly, known superset, known with overlapping names, known but lacking the ambiguous column} and "
+        "target -> {unknown, known by position, known superset of the column list}, under the dict-backed provider and SQLAlchemy on in-memory sqlite. "
+        "Oracles: table lineage unchanged by metadata; column pairs equal refsem.columns with that knowledge map; a provider knowing only unrelated tables "
+        "changes nothing.",
+        "Trusted: refsem.columns parameterised by the knowledge map (self-tested); well-formedness filter of DESIGN.md C13; hash seed 0 for outcomes that "
+        "depend on set order (explored in C11); known findings matched exactly from pins/C13.json.",
+        "DESIGN.md section 5 C13",
+    ),
 }
 
 NOT_YET = "check not built yet in this revision (planned in DESIGN.md section 5/11); not claimed"
